@@ -188,14 +188,192 @@ def exception_hierarchy(ctx):
     return anc
 
 
+class _IdiomArbitrated(object):
+    """Ledger wrapper used when the semantic analysis of the parse phase found nothing wrong on its
+    representative inputs: a structural (idiom) rule the semantic analysis covers — stores, guards,
+    split, prefix, raise classes of the parse phase — that does not recognise the code is recorded
+    as information, not as a violation."""
+
+    COVERED = ("C04.store", "C04.prefix", "C04.raw")
+
+    def __init__(self, led):
+        self.led = led
+
+    def _covered(self, rule, ck):
+        if any(rule == c or rule.startswith(c + ".") for c in self.COVERED):
+            return True
+        return rule == "C04.kinds" and "parse_vector" in (ck or "")
+
+    def ok(self, *a, **k):
+        return self.led.ok(*a, **k)
+
+    def info(self, *a, **k):
+        return self.led.info(*a, **k)
+
+    def undecided(self, *a, **k):
+        return self.led.undecided(*a, **k)
+
+    def count(self, *a, **k):
+        return self.led.count(*a, **k)
+
+    def require_min(self, *a, **k):
+        return self.led.require_min(*a, **k)
+
+    def violation(self, rule, construct_key, where, what, **k):
+        if self._covered(rule, construct_key):
+            return self.led.info(rule, construct_key, where, "idiom not recognised (the semantic analysis of the parse phase agrees with the grammar on all its representatives): " + what)
+        return self.led.violation(rule, construct_key, where, what, **k)
+
+    def check(self, cond, rule, construct_key, where, what, **k):
+        if cond:
+            return self.led.check(cond, rule, construct_key, where, what, **k)
+        self.violation(rule, construct_key, where, what)
+        return cond
+
+
+def semantic_verdict(ctx, v):
+    """(n decided, n unknown, discrepancies, n representatives) or an AnalysisError instance."""
+    key = ("parse_semantic_verdict", v)
+    if key not in ctx.memo:
+        try:
+            from .rules_parse_sem import check_semantics, get_semantics
+
+            n, unknown, bad = check_semantics(ctx, None, v)
+            ctx.memo[key] = (n, unknown, bad, len(get_semantics(ctx, v).R))
+        except AnalysisError as e:
+            ctx.memo[key] = e
+        except RecursionError:
+            ctx.memo[key] = AnalysisError("C04.semantic", "interpretation of the parse phase did not terminate")
+    return ctx.memo[key]
+
+
 def parse_summary(ctx, v, led=None):
     """Analyse CVSSn.__init__/parse_vector/check_mandatory.  Records C04.* obligations on `led`
-    (if given) and returns the summary dict used as the post-parse model."""
+    (if given) and returns the summary dict used as the post-parse model.
+
+    Two analyses: the structural (idiom) rules, which are a proof where they recognise the code, and
+    the semantic analysis on representative inputs (rules_parse_sem), which decides when they do not:
+    clean semantics turn an unrecognised idiom into information (and supply the model if the idiom
+    rules cannot even build one); a semantic discrepancy is a violation with a witness vector."""
     key = ("parse_summary", v)
     if led is None and key in ctx.memo:
         return ctx.memo[key]
     if led is None:
         led = NullLedger()
+    info = VERSIONS[v]
+    sem = semantic_verdict(ctx, v)
+    where = "cvss/%s.py" % info["mod"]
+    ck = "%s.%s parse phase" % (info["mod"], info["cls"])
+    clean = False
+    if isinstance(sem, AnalysisError):
+        led.info("C04.semantic", ck, where, "the parse phase could not be interpreted on representative inputs (%s): the structural rules decide alone" % sem.message)
+    else:
+        n_dec, n_unk, bad, n_rep = sem
+        clean = not bad and n_unk * 10 <= n_rep
+        seen = set()
+        for kind, r, msg in bad:
+            if kind in seen:
+                continue
+            seen.add(kind)
+            n_same = len([1 for b in bad if b[0] == kind])
+            led.violation(
+                "C04.semantic." + kind,
+                "%s::%s" % (ck, kind),
+                where,
+                "for the input %r %s (%d of %d representative vectors show this)" % (r, msg, n_same, n_rep),
+            )
+        if clean:
+            led.ok("C04.semantic", ck, where, "%d representative vectors (valid, one-edit neighbours, prefix variants): class, stored fields and minor version as the grammar says; %d not decided" % (n_dec, n_unk))
+        elif not bad:
+            led.info("C04.semantic", ck, where, "%d of %d representative vectors not decided: the structural rules decide alone" % (n_unk, n_rep))
+    try:
+        summ = _idiom_summary(ctx, v, _IdiomArbitrated(led) if clean else led)
+        if clean and summ.get("model_gap"):
+            sm = _semantic_summary(ctx, v)
+            if not sm.get("model_gap"):
+                led.info("C04.model", ck, where, "helper calls inside parse_vector (%s): the post-parse model is taken from the semantic analysis" % summ["model_gap"])
+                summ["model_gap"] = []
+                summ["accepted"] = sm["accepted"]
+                if sm.get("prefixes"):
+                    summ["prefixes"] = sm["prefixes"]
+        if clean and v == 3 and not [m for m in summ.get("prefixes", {}).values() if m is not None]:
+            summ["prefixes"] = _semantic_summary(ctx, v)["prefixes"]
+    except AnalysisError as e:
+        if not clean:
+            raise
+        led.info("C04.idiom", ck, where, "the structural rules do not apply (%s): the parse phase is decided by the semantic analysis" % e.message)
+        summ = _semantic_summary(ctx, v)
+    ctx.memo[key] = summ
+    return summ
+
+
+def _semantic_summary(ctx, v):
+    """The post-parse model read off the semantic tables (used when the idiom rules cannot)."""
+    from .consteval import TDict
+    from .rules_parse_sem import get_semantics
+
+    ps = get_semantics(ctx, v)
+    info = VERSIONS[v]
+    spec = ctx.vspec(v)
+    legal = ctx.legal(v)
+    accepted = {}
+    for f in ps.F:
+        out = ps.field_table["empty"].get(f)
+        if out and out[0] == "store" and isinstance(out[1][1], str) and f == "%s:%s" % out[1]:
+            accepted.setdefault(out[1][0], [])
+            if out[1][1] not in accepted[out[1][0]]:
+                accepted[out[1][0]].append(out[1][1])
+    ordered = {}
+    for k in list(legal) + [k for k in accepted if k not in legal]:
+        if k in accepted:
+            ordered[k] = [x for x in legal.get(k, []) if x in accepted[k]] + [x for x in accepted[k] if x not in legal.get(k, [])]
+    prefixes = {}
+    for r in ps.R:
+        vt = ps.vector_table.get(r)
+        if vt and vt[0] == "pass":
+            for p in spec["prefixes"]:
+                if r.startswith(p) and (p or v == 2):
+                    prefixes.setdefault(p, vt[2] if v == 3 else None)
+    run = ps.runs["empty"]
+    gap = []
+    init = ps.cls.methods["__init__"]
+    for e in run["events"]:
+        if e.kind == "attr_write" and e.func is not None and e.func.qualname != init.qualname:
+            a = e.data.get("attr")
+            if a not in ("metrics", "minor_version") and a not in gap:
+                gap.append("self." + str(a))
+    kt = TDict()
+    vt_ = TDict()
+    for k, vals in ordered.items():
+        kt[k] = k
+        row = TDict()
+        for x in vals:
+            row[x] = None
+        vt_[k] = row
+    return {
+        "v": v,
+        "module": ps.module,
+        "cls": ps.cls,
+        "vector_raw": True,
+        "phases": [],
+        "stores": [],
+        "parse_writes": set(),
+        "model_gap": gap,
+        "keys_table_name": None,
+        "vals_table_name": None,
+        "keys_table": kt,
+        "vals_table": vt_,
+        "accepted": ordered,
+        "prefixes": prefixes,
+        "loop": run["loop"],
+        "loop_module": run["ev"].repo.module(info["mod"]),
+        "n_raise": len([e for e in run["events"] if e.kind == "raise"]),
+        "dropped_segments": None,
+        "semantic_only": True,
+    }
+
+
+def _idiom_summary(ctx, v, led):
     info = VERSIONS[v]
     modname, clsname = info["mod"], info["cls"]
     module = ctx.repo.module(modname)
@@ -429,7 +607,6 @@ def parse_summary(ctx, v, led=None):
             "cvss/exceptions.py",
             "%s must derive from CVSS%dError and CVSSError (ancestors found: %s)" % (cname, v, chain),
         )
-    ctx.memo[key] = summ
     return summ
 
 
